@@ -465,10 +465,14 @@ def strip_comments(src):
 
 
 def load_known():
-    p = os.path.join(VERIF, 'known_findings.json')
-    if not os.path.exists(p):
-        return []
-    return json.load(open(p)).get('findings', [])
+    """Known findings: /verif/known_findings/*.json (one file per property)."""
+    out = []
+    d = os.path.join(VERIF, 'known_findings')
+    if os.path.isdir(d):
+        for f in sorted(os.listdir(d)):
+            if f.endswith('.json'):
+                out.extend(json.load(open(os.path.join(d, f))).get('findings', []))
+    return out
 
 
 def impl_env(extra=None):
